@@ -106,7 +106,7 @@ def close(cls, x, y, flt):
     # floats even on Fraction operands, so equality is up to rounding (1e-9 relative)
 
     def c1(u, v):
-        if u in ("-inf", "nan") or v in ("-inf", "nan"):
+        if u in ("-inf", "nan", "inf") or v in ("-inf", "nan", "inf"):
             return u == v
         u, v = float(Fraction(u)), float(Fraction(v))
         return abs(u - v) <= 1e-9 * max(1.0, abs(u), abs(v))
@@ -159,6 +159,19 @@ def laws(cases):
             t *= b
             return t
 
+        if cls == "Log":
+            # the value itself: log(exp(a) + exp(b)), computed stably and independently
+            import math
+
+            def logadd_ref():
+                x, y = float(a.score), float(b.score)
+                if x == float("-inf"):
+                    return C(y)
+                if y == float("-inf"):
+                    return C(x)
+                return C(max(x, y) + math.log1p(math.exp(-abs(x - y))))
+
+            checks["add_value"] = (lambda: a + b, logadd_ref)
         checks["inplace_add"] = (acc_add, lambda: (zero + a) + b)
         checks["inplace_mul"] = (acc_mul, lambda: (one * a) * b)
         bad = []
